@@ -12,7 +12,7 @@ import (
 	"errors"
 	"fmt"
 	"os"
-	"runtime/pprof"
+	"runtime/debug"
 	"time"
 
 	"verif/lib/harness"
@@ -31,7 +31,7 @@ type caseRes struct {
 	wb      *vres
 	g       *gres
 	sig     string
-	msg     string
+	msg     func() string
 	outcome string
 	steps   int
 	bindOK  bool
@@ -39,7 +39,6 @@ type caseRes struct {
 }
 
 var rig *graphRig
-var stopProfile = func() {}
 
 // evalCase runs one case and judges it. sig == "" means the property held.
 func evalCase(v *Val, withGraph bool) *caseRes {
@@ -48,59 +47,71 @@ func evalCase(v *Val, withGraph bool) *caseRes {
 	r.steps = r.wb.steps
 	r.outcome = r.wb.kind
 	wbFail := failKind(v, r.wb)
-	head := fmt.Sprintf("%s = %s", v.S.Type(), shortStr(render(v.RV), 400))
+	head := func() string { return fmt.Sprintf("%s = %s", v.S.Type(), shortStr(render(v.RV), 400)) }
+	var min *Val
+	var minRes *vres
 	if wbFail != "" {
-		sig, min, minRes := attribute(v, r.wb)
-		r.sig = sig
-		r.msg = fmt.Sprintf("[%s] %s: %s", sig, head, describe(wbFail, r.wb))
-		if min != v {
-			r.msg += fmt.Sprintf(" || minimal failing sub-value, written on its own: %s = %s: %s", min.S.Type(), shortStr(render(min.RV), 300), describe(failKind(min, minRes), minRes))
-		}
+		r.sig, min, minRes = attribute(v, r.wb)
 	}
-	if !withGraph {
-		return r
-	}
-	g := rig.roundTrip(v.RV)
-	r.g = g
-	r.steps += g.steps
-	r.outcome += "|" + g.kind
 	gFail := ""
-	switch g.kind {
-	case "harness":
-		r.infra = fmt.Sprintf("interrupt/resume stage for %s: %s", head, g.msg)
+	var g *gres
+	if withGraph {
+		g = rig.roundTrip(v.RV)
+		r.g = g
+		r.steps += g.steps
+		r.outcome += "|" + g.kind
+		switch g.kind {
+		case "harness":
+			r.infra = fmt.Sprintf("interrupt/resume stage for %s: %s", head(), g.msg)
+			return r
+		case "mismatch":
+			gFail = g.diff.kind
+		case "panic":
+			gFail = "panic"
+		case "loud-save", "loud-restore":
+			if v.mustSucceed() {
+				gFail = "error"
+			}
+		}
+		// binding: the checkpoint path must show the verdict of the white-box entry points
+		switch r.wb.kind {
+		case "ok":
+			r.bindOK = g.kind == "ok"
+		case "loud":
+			r.bindOK = g.kind == "loud-save" || g.kind == "loud-restore"
+		case "panic":
+			r.bindOK = g.kind == "panic" || g.kind == "loud-restore" || g.kind == "loud-save"
+		default:
+			r.bindOK = g.kind == "mismatch"
+		}
+		if wbFail == "" && gFail != "" {
+			d := g.diff
+			if d == nil {
+				d = &vres{kind: gFail}
+			}
+			r.sig = "checkpoint-only:" + classify(v, d) + "/" + gFail
+		}
+	}
+	if r.sig == "" {
 		return r
-	case "mismatch":
-		gFail = g.diff.kind
-	case "panic":
-		gFail = "panic"
-	case "loud-save", "loud-restore":
-		if v.mustSucceed() {
-			gFail = "error"
-		}
 	}
-	// binding: the checkpoint path must show the verdict of the white-box entry points
-	switch r.wb.kind {
-	case "ok":
-		r.bindOK = g.kind == "ok"
-	case "loud":
-		r.bindOK = g.kind == "loud-save" || g.kind == "loud-restore"
-	case "panic":
-		r.bindOK = g.kind == "panic" || g.kind == "loud-restore" || g.kind == "loud-save"
-	default:
-		r.bindOK = g.kind == "mismatch"
-	}
-	switch {
-	case wbFail != "" && gFail != "":
-		r.msg += " || public API: " + g.msg
-	case wbFail != "":
-		r.msg += fmt.Sprintf(" || public API: the interrupt/resume stage did not show it (%s %s)", g.kind, g.msg)
-	case gFail != "":
-		d := g.diff
-		if d == nil {
-			d = &vres{kind: gFail}
+	r.msg = func() string {
+		var m string
+		if wbFail != "" {
+			m = fmt.Sprintf("[%s] %s: %s", r.sig, head(), describe(wbFail, r.wb))
+			if min != v {
+				m += fmt.Sprintf(" || minimal failing sub-value, written on its own: %s = %s: %s", min.S.Type(), shortStr(render(min.RV), 300), describe(failKind(min, minRes), minRes))
+			}
+			switch {
+			case g == nil:
+			case gFail != "":
+				m += " || public API: " + g.text()
+			default:
+				m += fmt.Sprintf(" || public API: the interrupt/resume stage did not show it (%s %s)", g.kind, g.text())
+			}
+			return m
 		}
-		r.sig = "checkpoint-only:" + classify(v, d) + "/" + gFail
-		r.msg = fmt.Sprintf("[%s] %s: Marshal/Unmarshal on their own are fine, but %s", r.sig, head, g.msg)
+		return fmt.Sprintf("[%s] %s: Marshal/Unmarshal on their own are fine, but %s", r.sig, head(), g.text())
 	}
 	return r
 }
@@ -108,22 +119,16 @@ func evalCase(v *Val, withGraph bool) *caseRes {
 func describe(kind string, r *vres) string {
 	switch kind {
 	case "panic":
-		return "PANIC instead of a result or an error: " + r.msg
+		return "PANIC instead of a result or an error: " + r.text()
 	case "error":
-		return "a supported value of registered types was refused: " + r.msg
+		return "a supported value of registered types was refused: " + r.text()
 	}
-	return "silently different result: " + r.msg
+	return "silently different result: " + r.text()
 }
 
 func main() {
 	c := harness.Init("C12")
-	if pf := os.Getenv("C12_CPUPROFILE"); pf != "" { // development aid
-		if f, err := os.Create(pf); err == nil {
-			pprof.StartCPUProfile(f)
-			defer pprof.StopCPUProfile()
-			stopProfile = pprof.StopCPUProfile
-		}
-	}
+	debug.SetGCPercent(800) // the live heap is a few MB; the default GC pace costs a quarter of the run
 	c.Res.Rule = "a case = (type shape, value of the shape's boundary domain); distinct by construction (canonical shape string, value index); non-trivial = every case whose shape is not a bare basic kind"
 	c.Res.Assumptions = []string{
 		"universe: 14 basic kinds, 4 named basic types, 11 fixed registered structs (basic, pointer, slice, map, any, nested, unexported, pointer-to-container, recursive fields) + Box{V any}; unnamed []string and map[string]int registered explicitly; arrays, named containers, pointer keys, *any, channels/funcs are outside the statement and not generated",
@@ -132,7 +137,7 @@ func main() {
 		"value domains are built compositionally (all boundary values at leaves; nil / empty / every singleton / cyclic pairs for containers; nil at every pointer level), not as full cartesian products",
 		"failures are attributed to the minimal failing sub-value (a sub-value that fails when written on its own); the signature is the class of that sub-value's shape plus the kind of difference",
 	}
-	c.Res.Explanation = "Alphabet: grammar S ::= leaf | *S (<=2 in a row) | []E | map[K]E | Box{V:any{S}}, E ::= S | any{S}, K in {string,int,bool,NStr,SKey,any}; 29 leaves. Bound: depth <=3 (quick), plus depth 4 over 14 representative leaves (thorough); every value of each shape's domain. Each case: serialization.Marshal then Unmarshal on the real code; shapes of depth <=2 also through a real interrupt/resume of a compiled graph (value in a channel, a pending input and the state) with an in-memory CheckPointStore. Oracle: error = fine; otherwise identical dynamic type and deep equality with nil ~ empty containers; never a panic; no error inside the must-succeed core."
+	c.Res.Explanation = "Alphabet: grammar S ::= leaf | *S (<=2 in a row) | []E | map[K]E | Box{V:any{S}}, E ::= S | any{S}, K in {string,int,bool,NStr,SKey,SKeyAny,any}; 29 leaves. Bound: depth <=3 (quick), plus depth 4 over 15 representative leaves and sparse pairs (thorough; full cyclic pairs at depth <=3 there); every value of each shape's domain. Each case: serialization.Marshal then Unmarshal on the real code; shapes of depth <=2 also through a real interrupt/resume of a compiled graph (value in a channel, a pending input and the state) with an in-memory CheckPointStore. Oracle: error = fine; otherwise identical dynamic type and deep equality with nil ~ empty containers; never a panic; no error inside the must-succeed core."
 
 	if errs := registerAll(); len(errs) > 0 {
 		for _, e := range errs {
@@ -154,6 +159,7 @@ func main() {
 			fmt.Println("bad replay case")
 			harnessExit2()
 		}
+		setPairRule(c.Quick(), rec.Shape.Depth())
 		d := dom(rec.Shape, false)
 		if rec.Val < 0 || rec.Val >= len(d) {
 			fmt.Println("bad replay case: value index out of range")
@@ -173,7 +179,7 @@ func main() {
 			harnessExit2()
 		}
 		if res.sig != "" {
-			c.ReplayExit(v.Scenario, errors.New(res.msg))
+			c.ReplayExit(v.Scenario, errors.New(res.msg()))
 		}
 		c.ReplayExit(v.Scenario, nil)
 	}
@@ -205,6 +211,7 @@ func main() {
 		if stop {
 			break
 		}
+		setPairRule(c.Quick(), lvl.depth)
 		genShapes(lvl.depth, lvl.lv, func(s *Shape) {
 			if stop {
 				return
@@ -230,7 +237,8 @@ func main() {
 					// run inside runner.run) is raised on the calling goroutine and caught by Guard / roundTrip; the node
 					// bodies are identity functions. (A journal write per case costs ~1.3 ms on this file system.)
 					if gerr := c.Guard(scen, rec, 120*time.Second, func() error { res = evalCase(val, true); return nil }); gerr != nil {
-						res = &caseRes{sig: "harness-panic", msg: gerr.Error(), outcome: "harness-panic", bindOK: true}
+						m := gerr.Error()
+						res = &caseRes{sig: "harness-panic", msg: func() string { return m }, outcome: "harness-panic", bindOK: true}
 					}
 				} else {
 					res = evalCase(val, false)
@@ -273,20 +281,14 @@ func main() {
 					Scenario:  fmt.Sprintf("%07d.%04d %s = %s", shapeIdx, i, name, shortStr(render(val.RV), 120)),
 					Signature: res.sig,
 					Case:      rec,
-					Msg:       res.msg,
+					Msg:       res.msg(),
 				}
-				if c.TooManyViolations() {
-					// one violation per signature and worker: the list is bounded by the number of classes, keep all
-					c.Res.Violations = append(c.Res.Violations, v)
-				} else {
-					c.Violate(v)
-				}
+				c.Violate(v) // one per signature and worker (the harness keeps every first violation of a signature)
 			}
 		})
 	}
 	c.Res.Transitions += extraSteps
 	c.Count("round_trip_steps_spent_on_attribution", extraSteps)
-	stopProfile()
 	if bindBad > 0 {
 		c.Res.Notes = append(c.Res.Notes, "some interrupt/resume observations differ in kind from the white-box verdict (see counters)")
 	}
